@@ -3,6 +3,6 @@ CONSTANTS
   MaxLen = 3
   AlphaSel = "core"
 INVARIANTS TypeOK DesignOK InvGateBeforeInit InvDuplicateInitRejected InvPrematureInitializedRejected
-  InvRepeatedInitializedRejected InvPingAlways InvModernServedIffMetaComplete InvRemovedMethodsNotFound
+  InvRepeatedInitializedRejected InvFirstInitializedTakesEffect InvPingAlways InvModernServedIffMetaComplete InvRemovedMethodsNotFound
   LeadBreaksGate Export
 CHECK_DEADLOCK FALSE
